@@ -195,10 +195,10 @@ def _io(cfl, mode, s0, s1, s2, ns, a0, a1, a2, na, burst):
         k.teardown()
 
 
-@cond(quick=dict(N=2, timeout=170, parts=dict(C=[0, 1], M=[0, 1, 2])), thorough=dict(N=3, timeout=1800, parts=dict(C=[0, 1], M=[0, 1, 2])))
+@cond(quick=dict(N=2, timeout=170, parts=dict(C=[0, 1], M=[0, 1, 2], B=[0, 1], NA=[0, 1, 2])), thorough=dict(N=3, timeout=1800, parts=dict(C=[0, 1], M=[0, 1, 2], B=[0, 1], NA=[0, 1, 2, 3])))
 def ordered_io(cfl: int, mode: int, s0: int, s1: int, s2: int, ns: int, a0: int, a1: int, a2: int, na: int, burst: bool) -> str:
     """
-    pre: cfl == P.C and mode == P.M and 0 <= ns <= P.N and 0 <= na <= P.N
+    pre: cfl == P.C and mode == P.M and burst == bool(P.B) and 0 <= ns <= P.N and na == P.NA
     pre: 0 <= s0 < len(SERVER_SCRIPT) and 0 <= s1 < len(SERVER_SCRIPT) and 0 <= s2 <= 3 and (ns >= 3 or s2 == 0) and (ns >= 2 or s1 == 0) and (ns >= 1 or s0 == 0)
     pre: 0 <= a0 < len(SENDS) and (0 <= a1 <= 2 or a1 == 6) and 0 <= a2 <= 2 and (na >= 3 or a2 == 0) and (na >= 2 or a1 == 0) and (na >= 1 or a0 == 0)
     pre: (ns <= 1 or na <= 1)
@@ -374,6 +374,9 @@ def silence_detected(cfl: int, ws: bool, after_pings: int, send_first: bool) -> 
     return verdict(untraced(_silence, cfl, ws, after_pings, send_first))
 
 
+# a real client object built once by the public constructor (outside any symbolic run)
+_URL_CLIENT = __import__('engineio').Client(handle_sigint=False)
+
 SCHEMES = ('http', 'https', 'ws', 'wss', 'HTTP')
 HOSTS = ('h.example', 'localhost:5000', '10.0.0.1:80', 'h.example:443')
 PATHS = ('engine.io', '/engine.io/', 'socket.io', 'a/b', '//x//', '')
@@ -391,9 +394,7 @@ def _url_case(si, hi, pi, qi, ws, tail):
     q = QUERIES[qi] + tail if QUERIES[qi] else (('z=' + tail) if tail else '')
     url = '%s://%s/ignored/path%s' % (SCHEMES[si], HOSTS[hi], ('?' + q) if q else '')
     transport = 'websocket' if ws else 'polling'
-    import engineio
-    c = engineio.Client()
-    got = c._get_engineio_url(url, PATHS[pi], transport)
+    got = _URL_CLIENT._get_engineio_url(url, PATHS[pi], transport)
     want = _ref_url(SCHEMES[si], HOSTS[hi], PATHS[pi], q, transport)
     if got != want:
         return fail(PROP, 'URL', '_get_engineio_url(%r, %r, %r) = %r, expected %r' % (url, PATHS[pi], transport, got, want))
@@ -413,7 +414,7 @@ def _url_table(si, hi, pi, qi, ws):
     return _url_case(si, hi, pi, qi, ws, '')
 
 
-@cond(quick=dict(S=1, timeout=170), thorough=dict(S=3, timeout=1200))
+@cond(quick=dict(S=1, timeout=300), thorough=dict(S=3, timeout=1200))
 def url_formatting_symbolic_query(si: int, ws: bool, tail: str) -> str:
     """
     pre: 0 <= si <= 3 and len(tail) <= P.S
